@@ -139,32 +139,55 @@ HYGIENE_RE = re.compile(r'\b(Admitted|admit|Axiom|Axioms|Parameter|Parameters|Co
                         r'|Unset Guard|bypass_check|type-in-type|impredicative-set|Admit Obligations')
 
 
+def strip_coq_comments(text):
+    """ remove (possibly nested, multi-line) Coq comments, keeping newlines so that line numbers survive;
+    string literals are respected """
+    out = []
+    depth = 0
+    i = 0
+    in_str = False
+    n = len(text)
+    while i < n:
+        c = text[i]
+        if depth == 0 and c == '"':
+            in_str = not in_str
+            out.append(c)
+            i += 1
+        elif not in_str and text.startswith('(*', i):
+            depth += 1
+            i += 2
+        elif not in_str and depth > 0 and text.startswith('*)', i):
+            depth -= 1
+            i += 2
+        else:
+            if depth == 0 or c == '\n':
+                out.append(c)
+            i += 1
+    return ''.join(out)
+
+
 def hygiene():
     """ static scan of the whole development; returns offending lines (must be empty).
-    Hypothesis/Variable are allowed only inside a Section (checked crudely by nesting count). """
+    Hypothesis/Variable are allowed only inside a Section (nesting counted). Comments are ignored. """
     bad = []
     for sub in ('model', 'proofs', 'props', 'gen'):
         for d, _, fs in os.walk(os.path.join(COQ, sub)):
             for fn in sorted(fs):
                 if not fn.endswith('.v'):
                     continue
-                depth = 0
-                in_comment = 0
                 with open(os.path.join(d, fn)) as f:
-                    for n, line in enumerate(f, 1):
-                        code = strip_comments(line) if not in_comment else ''
-                        in_comment += line.count('(*') - line.count('*)')
-                        if in_comment < 0:
-                            in_comment = 0
-                        if re.match(r'\s*Section\b', code):
-                            depth += 1
-                        if re.match(r'\s*End\b', code) and depth:
-                            depth -= 1
-                        for m in HYGIENE_RE.finditer(code):
-                            w = m.group(0)
-                            if w in ('Hypothesis', 'Variable') and depth > 0:
-                                continue
-                            bad.append(f'{fn}:{n}: {line.strip()}')
+                    text = f.read()
+                depth = 0
+                for n, code in enumerate(strip_coq_comments(text).split('\n'), 1):
+                    if re.match(r'\s*Section\b', code):
+                        depth += 1
+                    if re.match(r'\s*End\b', code) and depth:
+                        depth -= 1
+                    for m in HYGIENE_RE.finditer(code):
+                        w = m.group(0)
+                        if w in ('Hypothesis', 'Variable') and depth > 0:
+                            continue
+                        bad.append(f'{fn}:{n}: {code.strip()[:120]}')
     return bad
 
 
@@ -210,7 +233,7 @@ def coqc_print_assumptions(props_file, thms):
 
 def theorems_of(props_file):
     with open(props_file) as f:
-        txt = f.read()
+        txt = strip_coq_comments(f.read())
     return re.findall(r'^\s*(?:Theorem|Lemma|Corollary|Example)\s+([A-Za-z0-9_\']+)', txt, re.M)
 
 
